@@ -65,6 +65,26 @@ def _plain(addition):
     return type("Plain04", (utype.Schema,), ns)
 
 
+def _prop_class(base):
+    import utype
+
+    def make():
+        class PNO(getattr(utype, base)):
+            n: int = 0
+
+            @property
+            @utype.Field(no_output=True)
+            def x(self) -> int:
+                return getattr(self, "_x", 0)
+
+            @x.setter
+            def x(self, v: int = utype.Field(required=False, ge=0)):
+                self._x = v
+        PNO.__module__ = __name__
+        return PNO
+    return make
+
+
 def _rule(ann, **constraints):
     from utype.parser.rule import Rule
     return Rule.parse_annotation(ann, constraints=constraints or None)
@@ -89,12 +109,16 @@ def _awkward():
         "iterator_of_date": lambda: _rule(t.Iterator[__import__("datetime").date]),
         "discriminated_union": _disc,
         # a plain data class called directly with string keys that look like names of its own machinery
+        # a property that takes input through its setter and is never shown (no_output)
+        "hidden_settable_property_schema": _prop_class("Schema"),
+        "hidden_settable_property_dataclass": _prop_class("DataClass"),
         "plain_schema": lambda: _plain(False),
         "plain_schema_addition": lambda: _plain(True),
     }
 
 
 AWKWARD = _awkward()
+DIRECT_CLASSES = ("discriminated_union", "plain_schema", "plain_schema_addition", "hidden_settable_property_schema", "hidden_settable_property_dataclass")
 
 
 _HANGS = {}
@@ -119,7 +143,7 @@ def run_case(case):
         tspec.validate(spec)
     try:
         T = AWKWARD[spec["name"]]() if spec.get("k") == "awkward" else tspec.build(spec)
-        if spec.get("k") == "awkward" and spec["name"] in ("discriminated_union", "plain_schema", "plain_schema_addition") and entry == "call":
+        if spec.get("k") == "awkward" and spec["name"] in DIRECT_CLASSES and entry == "call":
             fn = T.__from__       # the data class itself, not a field holding one
         else:
             fn = entries.build_entry(entry, T, opts)
@@ -269,14 +293,15 @@ def campaign(ctx):
                      {"t": "dict", "v": [["item", {"t": "dict", "v": [["kind", {"t": "obj"}]]}]]}, {"t": "dict", "v": [["item", {"t": "dict", "v": [["kind", F("nan")]]}]]},
                      {"t": "dict", "v": [["1,2", 3]]}, {"t": "dict", "v": [["[1]", "2"], ["x", 1]]}, 5, None, {"t": "float", "v": "1.5"},
                      {"t": "iter", "v": ["1", "x", 3]}, {"t": "gen", "v": [1, "2", None]}, {"t": "iter", "v": ["1", 2]}, {"t": "gen", "v": ["2020-01-02", "zz"]}, {"t": "iter", "v": []},
+                     {"t": "dict", "v": [["x", 1]]}, {"t": "dict", "v": [["x", "7"], ["n", "2"]]}, {"t": "dict", "v": [["x", -1]]}, {"t": "dict", "v": [["x", "abc"]]},
                      {"t": "dict", "v": [["_obj_self", 1]]}, {"t": "dict", "v": [["_d", 1], ["a", "2"]]}, {"t": "dict", "v": [["_d", {"t": "dict", "v": [["a", "x"]]}]]}, {"t": "dict", "v": [["self", 1], ["cls", 2]]},
                      {"t": "dict", "v": [["kwargs", {"t": "dict", "v": []}], ["args", {"t": "list", "v": []}]]}, {"t": "dict", "v": [["__class__", 1], ["__dict__", {"t": "dict", "v": []}]]},
                      {"t": "dict", "v": [["a", 1], ["__options__", 3], ["__context__", None]]}, {"t": "dict", "v": [["", 1], ["a b", 2], ["é", 3]]}]
     for name in AWKWARD:
         for v in hostile_items:
-            if name in ("discriminated_union", "plain_schema", "plain_schema_addition") and not (isinstance(v, dict) and v.get("t") == "dict" and all(isinstance(k, str) for k, _ in v["v"])):
+            if name in DIRECT_CLASSES and not (isinstance(v, dict) and v.get("t") == "dict" and all(isinstance(k, str) for k, _ in v["v"])):
                 continue      # the data class is called directly: string-keyed mappings only (the property's domain)
-            for entry in (("call", "schema") if name in ("discriminated_union", "plain_schema", "plain_schema_addition") else ("call", "schema", "param", "return")):
+            for entry in (("call", "schema") if name in DIRECT_CLASSES else ("call", "schema", "param", "return")):
                 idx += 1
                 if idx % ctx.nshards != ctx.shard:
                     continue
